@@ -586,18 +586,34 @@ pub fn main(args: &util::Args) {
     let dump = args.rest.iter().any(|x| x == "--dump");
     let next = std::sync::atomic::AtomicUsize::new(0);
     let lines: std::sync::Mutex<Vec<Option<String>>> = std::sync::Mutex::new(vec![None; n]);
+    // the C14 catalogues that vary who imports what go through every entry point as well
+    let cat = crate::c16e::catalogue_projects();
+    let eps: std::sync::Mutex<Vec<String>> = std::sync::Mutex::new(vec![String::new(); n + cat.len()]);
+    let next_cat = std::sync::atomic::AtomicUsize::new(0);
     let workers = std::thread::available_parallelism().map(|x| x.get()).unwrap_or(4).clamp(2, 8);
     std::thread::scope(|sc| {
         for _ in 0..workers {
             sc.spawn(|| loop {
                 let i = next.fetch_add(1, std::sync::atomic::Ordering::SeqCst);
                 if i >= n {
+                    loop {
+                        let k = next_cat.fetch_add(1, std::sync::atomic::Ordering::SeqCst);
+                        if k >= cat.len() {
+                            break;
+                        }
+                        let root = base.join(format!("cat{}", k));
+                        materialize(&root, &cat[k], 0);
+                        let row = crate::c16e::ep_row(&cat[k].id, cat[k].kind, "-", &root, &cat[k].files, None);
+                        eps.lock().unwrap()[n + k] = row;
+                        let _ = std::fs::remove_dir_all(&root);
+                    }
                     break;
                 }
                 let w = &worlds[i];
                 let files = sources(w);
                 let proj = Project { id: format!("w{}", i), kind: "world", files, tags: vec![] };
                 let mut outcomes: Vec<(String, String)> = Vec::new();
+                let mut ep = String::new();
                 for c in 0..3u64 {
                     let root = base.join(format!("w{}-{}", i, c));
                     materialize(&root, &proj, c * 7919);
@@ -609,6 +625,10 @@ pub fn main(args: &util::Args) {
                         .join()
                         .unwrap_or_else(|_| (l(vec![a("thread-panic")]), String::new()));
                     outcomes.push((o.to_text(), raw));
+                    if c == 0 {
+                        // the other entry points on the very same directory (harness/src/c16e.rs)
+                        ep = crate::c16e::ep_row(&proj.id, "world", &world_sexp(w).to_text(), &root, &proj.files, Some(outcomes[0].clone()));
+                    }
                     let _ = std::fs::remove_dir_all(&root);
                 }
                 let same = outcomes.iter().all(|o| o == &outcomes[0]);
@@ -622,6 +642,7 @@ pub fn main(args: &util::Args) {
                     esc_line(&outcomes[0].1),
                 );
                 lines.lock().unwrap()[i] = Some(line);
+                eps.lock().unwrap()[i] = ep;
                 if dump && i < 40 {
                     let mut s = String::new();
                     for (rel, c) in &proj.files {
@@ -634,5 +655,6 @@ pub fn main(args: &util::Args) {
     });
     let out: String = lines.into_inner().unwrap().into_iter().map(|l| l.unwrap_or_default()).collect();
     std::fs::write(args.out.join("c16.cases.tsv"), out).unwrap();
+    std::fs::write(args.out.join("c16.ep.tsv"), eps.into_inner().unwrap().concat()).unwrap();
     let _ = std::fs::remove_dir_all(&base);
 }
